@@ -49,6 +49,10 @@ def inits():
             for th in ths:
                 for bk in bks:
                     out.append({'center_extrema': centre, 'burst_method': method, 'thresholds': th, 'burst_kwargs': bk})
+    # tables WITHOUT sample columns (return_samples=False) - an option that interacts with recompute_edges
+    for centre in ('peak', 'trough'):
+        out.append({'center_extrema': centre, 'burst_method': 'cycles', 'thresholds': dict(S.T0, amp_consistency_threshold=.6), 'burst_kwargs': None,
+                    'return_samples': False})
     return out
 
 
@@ -82,7 +86,7 @@ def functional(sig, led):
     from bycycle.features import compute_features
     return compute_features(np.array(sig), FS, FR, led['center_extrema'], led['burst_method'],
                             copy.deepcopy(led['burst_kwargs']), copy.deepcopy(led['thresholds']),
-                            copy.deepcopy(led.get('find_extrema_kwargs')), True)
+                            copy.deepcopy(led.get('find_extrema_kwargs')), led.get('return_samples', True))
 
 
 def check_fresh_defaults(method):
@@ -105,7 +109,7 @@ def build(init, hist):
     led = {'center_extrema': init['center_extrema'], 'burst_method': init['burst_method'],
            'thresholds': expand(copy.deepcopy(init['thresholds']), init['burst_method']),
            'burst_kwargs': {} if init['burst_kwargs'] is None else copy.deepcopy(init['burst_kwargs']),
-           'find_extrema_kwargs': copy.deepcopy(FEK_DEFAULT)}
+           'find_extrema_kwargs': copy.deepcopy(FEK_DEFAULT), 'return_samples': init.get('return_samples', True)}
     bm = Bycycle(**copy.deepcopy(init))
     sid, table_kind = None, None
     for op in hist:
@@ -123,7 +127,7 @@ def build(init, hist):
                 return bm, led, sid, ('fit-vs-functional', 'after fit, df_features != compute_features with the current settings: ' + dd)
             fresh = Bycycle(center_extrema=led['center_extrema'], burst_method=led['burst_method'],
                             burst_kwargs=copy.deepcopy(led['burst_kwargs']), thresholds=copy.deepcopy(led['thresholds']),
-                            find_extrema_kwargs=copy.deepcopy(led['find_extrema_kwargs']))
+                            find_extrema_kwargs=copy.deepcopy(led['find_extrema_kwargs']), return_samples=led['return_samples'])
             fresh.fit(np.array(sig), FS, FR)
             dd = diff_tables(bm.df_features, fresh.df_features)
             if dd:
@@ -156,7 +160,7 @@ def build(init, hist):
             bm.find_extrema_kwargs['filter_kwargs']['n_cycles'] = op[1]       # in-place edit of a nested setting
             led['find_extrema_kwargs']['filter_kwargs']['n_cycles'] = op[1]
             # ... and a fresh default object still analyses the filter-sensitive signal with the default filter
-            d = Bycycle(thresholds=copy.deepcopy(led['thresholds']), burst_method=led['burst_method'])
+            d = Bycycle(thresholds=copy.deepcopy(led['thresholds']), burst_method=led['burst_method'], return_samples=led['return_samples'])
             d.fit(np.array(SIGS['S3']), FS, FR)
             dd = diff_tables(d.df_features, functional(SIGS['S3'], dict(led, center_extrema='peak', burst_kwargs={},
                                                                         find_extrema_kwargs=None)))
